@@ -30,8 +30,11 @@ def run(ctx):
     # graphs with self-loops: a tadpole removed LAST still lowers the loop number
     ss += S.generate(ctx, 5 if ctx.quick else 25, 8 if ctx.quick else 20, max_e=5, max_loops=3, routings_per_graph=1, kinds=("uniform",),
                      names=["tadpole", "tadpole_pair", "triangle_tadpole", "sunrise_tadpole"])
+    ss += S.generate(ctx, 0, 3 if ctx.quick else 6, routings_per_graph=1, kinds=("uniform",),
+                     special=("integer_dod:4", "integer_dod:2", "integer_dod:3", "integer_dod:6") * (1 if ctx.quick else 4))
     S.run(ss)
     SC.corr_perm(ctx, ss)
+    SC.generic_scalar_guard(ctx, ss[:: 9], k=8)
     for s in ss:
         a, c, r = s["impl"], s["case"], s["routing"]
         nl, D, n = r["L"], c["D"], len(c["edges"])
